@@ -25,7 +25,7 @@ SLOTS = ["2,5", "5,2", "0,7", "7,0"]
 
 def plan(tier, seed):
     if tier == "quick":
-        return dict(space="k3", chunk=150, seeds=[0, 1, 2, 3, 4, 5, 6, 7],
+        return dict(space="k3", chunk=150, seeds=[0, 1, 2, 3, 4, 5],
                     slots=SLOTS[:2], assign_window=f"{seed}/3")
     return dict(space="k3", chunk=100,
                 seeds=list(range(64)) + [2 ** 31, 2 ** 32 - 1],
